@@ -66,29 +66,55 @@ const (
 	zzRefCustom
 )
 
-// zzCustomExpiry is a user calculator with three independent durations.
+// zzCustomExpiry is a user calculator with three independent durations; it records what it was last asked.
 type zzCustomExpiry struct {
 	create, update, read time.Duration
+	nCreate, nUpdate, nRead int
+	lastKey, lastVal, lastOld int
+	lastSnap                  int64
 }
 
-func (c *zzCustomExpiry) ExpireAfterCreate(e Entry[int, int]) time.Duration { return c.create }
+func (c *zzCustomExpiry) ExpireAfterCreate(e Entry[int, int]) time.Duration {
+	c.nCreate++
+	c.lastKey, c.lastVal, c.lastSnap = e.Key, e.Value, e.SnapshotAtNano
+	return c.create
+}
 func (c *zzCustomExpiry) ExpireAfterUpdate(e Entry[int, int], old int) time.Duration {
+	c.nUpdate++
+	c.lastKey, c.lastVal, c.lastOld, c.lastSnap = e.Key, e.Value, old, e.SnapshotAtNano
 	return c.update
 }
-func (c *zzCustomExpiry) ExpireAfterRead(e Entry[int, int]) time.Duration { return c.read }
+func (c *zzCustomExpiry) ExpireAfterRead(e Entry[int, int]) time.Duration {
+	c.nRead++
+	c.lastKey, c.lastVal, c.lastSnap = e.Key, e.Value, e.SnapshotAtNano
+	return c.read
+}
 
 type zzCustomRefresh struct {
 	create, update, reload, fail time.Duration
+	nCreate, nUpdate, nReload, nFail int
+	lastVal, lastOld                 int
+	lastErr                          error
 }
 
-func (c *zzCustomRefresh) RefreshAfterCreate(e Entry[int, int]) time.Duration { return c.create }
+func (c *zzCustomRefresh) RefreshAfterCreate(e Entry[int, int]) time.Duration {
+	c.nCreate++
+	c.lastVal = e.Value
+	return c.create
+}
 func (c *zzCustomRefresh) RefreshAfterUpdate(e Entry[int, int], old int) time.Duration {
+	c.nUpdate++
+	c.lastVal, c.lastOld = e.Value, old
 	return c.update
 }
 func (c *zzCustomRefresh) RefreshAfterReload(e Entry[int, int], old int) time.Duration {
+	c.nReload++
+	c.lastVal, c.lastOld = e.Value, old
 	return c.reload
 }
 func (c *zzCustomRefresh) RefreshAfterReloadFailure(e Entry[int, int], err error) time.Duration {
+	c.nFail++
+	c.lastVal, c.lastErr = e.Value, err
 	return c.fail
 }
 
